@@ -23,11 +23,12 @@ import (
 
 // handClock: the harness owns the ticker channel.
 type handClock struct {
-	mu      sync.Mutex
-	ch      chan time.Time
-	tickers int
-	dur     time.Duration
-	elapsed time.Duration // harness-owned time: advanced by the properties between operations
+	mu         sync.Mutex
+	ch         chan time.Time
+	tickers    int
+	dur        time.Duration
+	elapsed    time.Duration // harness-owned time: advanced by the properties between operations
+	panicFirst bool          // the first NewTicker call panics
 }
 
 func (c *handClock) Now() time.Time {
@@ -44,6 +45,11 @@ func (c *handClock) advance(d time.Duration) {
 func (c *handClock) NewTicker(d time.Duration) *time.Ticker {
 	c.mu.Lock()
 	defer c.mu.Unlock()
+	if c.panicFirst {
+		// user code: the first attempt to get a ticker blows up (the caller recovers and carries on)
+		c.panicFirst = false
+		panic("the clock cannot hand out a ticker right now")
+	}
 	c.tickers++
 	c.dur = d
 	c.ch = make(chan time.Time) // unbuffered: a send completes only when the flush loop takes it
@@ -155,7 +161,7 @@ func propC12Sequential(t *rapid.T) {
 	if rapid.IntRange(0, 15).Draw(t, "defaultSize") == 0 {
 		size, sizeField = 256*1024, rapid.SampledFrom([]int{0, 0, 256 * 1024}).Draw(t, "sizeAsConfigured")
 	}
-	clk := &handClock{}
+	clk := &handClock{panicFirst: rapid.IntRange(0, 7).Draw(t, "firstTickerPanics") == 0}
 	sink := &opSink{}
 	// the clock may be a VALUE of a struct type without fields (its zero value is the only value it has, like
 	// zap's own system clock): as good a Clock as a pointer
@@ -218,6 +224,22 @@ func propC12Sequential(t *rapid.T) {
 		cp := append([]byte(nil), p...)
 		var k int
 		var err error
+		if clk.panicFirst && !initialized {
+			// the very first Write makes the syncer ask the user's clock for a ticker, and the clock panics: the panic
+			// is the caller's to deal with, nothing was accepted, and the syncer is as good as new afterwards
+			func() {
+				defer func() {
+					if recover() == nil {
+						fail("the clock's panic did not reach the caller of Write")
+					}
+				}()
+				_, _ = bws.Write(append([]byte(nil), p...))
+			}()
+			hist = append(hist, "W!clock-panic")
+			if total, _, _, _ := sink.state(); total != 0 {
+				fail("a Write that ended in the clock's panic put %d bytes into the sink", total)
+			}
+		}
 		if viaString {
 			k, err = io.WriteString(bws, string(cp)) // the standard library's string path must behave like Write
 		} else {
